@@ -37,6 +37,10 @@ _SKIP_ATTRS = {
 def canon(x, depth=0, seen=None, skip=_SKIP_ATTRS):
     if seen is None:
         seen = {}
+    if isinstance(x, int) and not isinstance(x, bool) and abs(x) >= 2**40:
+        # Context.hashable() puts id(function) into cache keys: a memory address, different in every process. Registry
+        # numbers of that size are Fractions / Decimals / floats (handled below), never bare ints.
+        return ("addr",)
     if x is None or isinstance(x, (bool, int, str, bytes)):
         return x
     if isinstance(x, float):
